@@ -1,6 +1,7 @@
 """C11 - name resolution order and evaluation environment (DESIGN.md 3, C11)."""
 import itertools
 import types
+import unicodedata
 
 import numpy as np
 import pandas as pd
@@ -64,7 +65,7 @@ def run_config(cfg, keep=None):
 
     role, name, k, subset, none_win = cfg["role"], cfg["name"], cfg["k"], cfg["subset"], cfg.get("none")
     dotted = cfg.get("dotted", 0)
-    ident = name.isidentifier()
+    ident = name.isidentifier() and unicodedata.normalize("NFKC", name) == name  # (Python itself stores identifiers NFKC-normalised)
     if role == "arg":
         formula = f"y ~ 0 + fmc_probe({name})"
     elif role == "kwarg":
@@ -98,6 +99,8 @@ def run_config(cfg, keep=None):
         g = {"__builtins__": __builtins__, "design_matrices": design_matrices, "_holder": holder}
         if role == "bqarg" and name.strip() != name:  # the name without its outer spaces is defined everywhere: it must not be used
             g[name.strip()] = 66.0
+        if unicodedata.normalize("NFKC", name) != name:  # so is the NFKC-normalised spelling of the name: another name
+            g[unicodedata.normalize("NFKC", name)] = 67.0
         if role == "dotarg":  # an object whose attribute spells the rest of the name: a dotted *argument* is a plain key, not attribute access
             g[name.split(".")[0]] = types.SimpleNamespace(**{name.split(".")[1]: 77.0})
         lines = [f"def f{i}(nxt):"]
@@ -140,7 +143,7 @@ def expected(cfg):
     defined = set(subset)
     if name in ("scale", "Sum"):
         defined.add("builtin")
-    if not name.isidentifier():
+    if not name.isidentifier() or unicodedata.normalize("NFKC", name) != name:
         defined.discard("local")
     for s in order:
         if s in defined:
@@ -175,6 +178,10 @@ def configs():
             out.append({"role": "bqarg", "name": "wz ", "k": k, "subset": sub})  # the trailing space is part of the name
             out.append({"role": "bqarg", "name": " wz", "k": k, "subset": sub})
             out.append({"role": "dotarg", "name": "ob.w", "k": k, "subset": sub})
+            for odd in ("\u00b5", "\u2126m", "\ufb01x", "\u00e9t\u00e9"):  # identifiers that are not NFKC-stable (micro sign, ohm sign, a ligature) and a stable non-ASCII one
+                out.append({"role": "arg", "name": odd, "k": k, "subset": sub})
+                out.append({"role": "bqarg", "name": odd, "k": k, "subset": sub})
+                out.append({"role": "kwarg", "name": odd, "k": k, "subset": sub})
     return out
 
 
@@ -211,6 +218,21 @@ def check_envobj(case, acc):
         want = 1.0 if "data" in sub else 3.0 if "envns" in sub else 5.0 if "extra" in sub else "raises"
         if got != want:
             problems.append(f"Environment instance with scopes {sub}: got {got}, expected {want}")
+    # one Environment object of the caller used for several designs with different extra namespaces
+    shared = Environment([{"other": 9.0}])
+    for step, (extra_wz, want) in enumerate([(5.0, 5.0), (None, "raises"), (6.0, 6.0), (None, "raises"), (5.0, 5.0)]):
+        extra = {"fmc_probe": fmc_probe}
+        if extra_wz is not None:
+            extra["wz"] = extra_wz
+        acc.calls += 1
+        try:
+            dm = design_matrices("y ~ 0 + fmc_probe(wz)", data_frame(), env=shared, extra_namespace=extra)
+            got = float(np.asarray(dm.common.design_matrix)[0, -1])
+        except Exception:
+            got = "raises"
+        if got != want:
+            problems.append(f"one Environment object reused, call {step + 1} with extra_namespace wz={extra_wz}: got {got}, expected {want}")
+            break
     for bad in ("0", 1.5, None):
         try:
             design_matrices("y ~ x", data_frame(), env=bad)
